@@ -324,6 +324,7 @@ func (e *Engine) newFnCtx(fn *ssa.Function, discovery bool, prev *FnCtx) *FnCtx 
 	}
 	if prev != nil {
 		fc.loopWrites, fc.loopCellW, fc.loopHavocAll = prev.loopWrites, prev.loopCellW, prev.loopHavocAll
+		fc.loopKeep, fc.loopKeepSet = prev.loopKeep, prev.loopKeepSet
 	}
 	return fc
 }
